@@ -170,6 +170,10 @@ func init() {
 								if c2, ok := r.(*ssa.Call); ok && c2.Common().StaticCallee() != nil && c.P.InModule(c2.Common().StaticCallee()) {
 									passed = true
 								}
+								// a set selector hands the extended set back to its caller, which encodes with it
+								if _, isRet := r.(*ssa.Return); isRet && namedOf(f.Signature.Results().At(0).Type()) == "PercentEncodeSet" {
+									passed = true
+								}
 							}
 							where = c.P.Pos(call.Pos())
 							switch {
